@@ -52,7 +52,11 @@ def tasks(tier):
           {"name": "tip-position:missing-spring-constant", "fn": "t_tip", "args": {"innate": False, "no_k": True}}]
     for n in ([10] if q else [10, 12]):
         ts.append({"name": f"force-offset:N{n}", "fn": "t_force_offset", "args": {"n": n}, "max_paths": 4000,
-                   "witnesses": ["contact-found", "no-contact"]})
+                   "witnesses": ["contact-found"]})
+    # an estimated contact index of 0 (nothing in front of it) only remains for a
+    # single sample, since the estimator's fallback is the middle of the data
+    ts.append({"name": "force-offset:N1", "fn": "t_force_offset", "args": {"n": 1}, "max_paths": 100,
+               "witnesses": ["no-contact"]})
     ts.append({"name": "tip-offset:deviation_from_baseline:N10", "fn": "t_tip_offset",
                "args": {"method": "deviation_from_baseline", "n": 10}, "max_paths": 4000, "witnesses": ["done"]})
     ts.append({"name": "tip-offset:frechet_direct_path:N5", "fn": "t_tip_offset",
